@@ -13,6 +13,12 @@ pub(crate) mod verif_s {
         sl.current_frame = f;
     }
 
+    pub(crate) fn set_last_saved<T: Config<Input = u8, State = u32>>(sl: &mut SyncLayer<T>, f: Frame) {
+        sl.last_saved_frame = f;
+    }
+    pub(crate) fn queue_mut<T: Config<Input = u8, State = u32>>(sl: &mut SyncLayer<T>, p: usize) -> &mut InputQueue<T> {
+        &mut sl.input_queues[p]
+    }
     pub(crate) fn set_last_confirmed<T: Config<Input = u8, State = u32>>(sl: &mut SyncLayer<T>, f: Frame) {
         sl.last_confirmed_frame = f;
     }
